@@ -58,6 +58,12 @@ func (cfg *Config) merge(src *Config) error {
 		return err
 	}
 
+	// mergo leaves the already filled variables container of cfg alone, which
+	// dropped every variable defined in a configuration file
+	if src.Variables != nil {
+		cfg.Variables = cfg.Variables.Merge(src.Variables)
+	}
+
 	return nil
 }
 
